@@ -95,10 +95,10 @@ VM_STUBS_NOTE = ('fuel_vm::constraints::reg_key::split_registers replaced by a s
 prop('C21',
      builds=[dict(crate='vm', filters=['c21_'])],
      default=dict(mem=4, timeout={'quick': 600, 'thorough': 2400}),
-     overrides=[(r'c21_(div|divi|mod|modi|exp_small|exp_closed|expi_small|mlog|mldv|mul_full|niop_exp_\w+)$', dict(tier='thorough', mem=8)),
+     overrides=[(r'c21_(div|divi|mod|modi|exp_small|exp_closed|expi_small|mlog|mldv|mul_full|mul_b32|niop_reserved_register|niop_exp_\w+)$', dict(tier='thorough', mem=8)),
                 (r'c21_niop_(add|sub|mul|sll|xnor)_u(16|32)$', dict(tier='rotate'))],
      rotate_pick=3,
-     min_harnesses={'quick': 24, 'thorough': 50},
+     min_harnesses={'quick': 30, 'thorough': 50},
      functions_encoded=['<fuel_asm::op::X as Execute>::execute for each covered opcode (fuel-vm/src/interpreter/executors/opcodes_impl.rs)',
                         'Interpreter::gas_charge / gas::gas_charge', 'interpreter::alu::{alu_capture_overflow, alu_boolean_overflow, alu_error, alu_set, alu_clear}',
                         'interpreter::internal::{inc_pc, set_flag}', 'constraints::reg_key::WriteRegKey::new'],
@@ -111,8 +111,8 @@ prop('C21',
 prop('C22',
      builds=[dict(crate='vm', filters=['c22_'])],
      default=dict(mem=4, timeout={'quick': 900, 'thorough': 2400}),
-     min_harnesses={'quick': 22, 'thorough': 36},
-     overrides=[(r'c22_wdcm_(ne|gt|lte|lt|eq)_ind|c22_wdcm_gte_dir|c22_wdop_(sub_dir|or_ind|xor_dir|shr_dir|add_dir|and_ind|shl_ind|not)$|c22_invalid_imm_w[dq](ml|op)$', dict(tier='rotate'))],
+     min_harnesses={'quick': 24, 'thorough': 38},
+     overrides=[(r'c22_wdcm_(ne|gt|lt|eq)_ind|c22_wdop_(sub_dir|or_ind|xor_dir|shr_dir|add_dir|and_ind|shl_ind|not)$|c22_invalid_imm_w[dq](ml|op)$', dict(tier='rotate'))],
      rotate_pick=5,
      functions_encoded=['<op::{WDCM,WDOP,WDML,WDDV,WQDV,WDAM,WQAM,WDMM,WQMM,WDMD,WQMD} as Execute>::execute',
                         'alu::wideint::{alu_wideint_cmp_u128, alu_wideint_op_u128, alu_wideint_div_*, alu_wideint_addmod_*, alu_wideint_mulmod_*, alu_wideint_muldiv_*, cmp_u128, op_overflowing_u128}',
@@ -128,7 +128,7 @@ prop('C22',
 prop('C24',
      builds=[dict(crate='vm', filters=['c24_'])],
      default=dict(mem=3, timeout={'quick': 900, 'thorough': 2400}),
-     min_harnesses={'quick': 10, 'thorough': 10},
+     min_harnesses={'quick': 13, 'thorough': 13},
      functions_encoded=['<op::{SB,SQW,SHW,SW,LB,LQW,LHW,LW,MCLI,MCPI} as Execute>::execute', 'Interpreter::{store_u8..u64, load_u8..u64, memclear, memcopy, ownership_registers}',
                         'MemoryInstance::{write, write_bytes, read_bytes, verify, memcopy}', 'OwnershipRegisters::{new, verify_ownership}'],
      bounds=['pre-state: VMINV with stack.len() = 64, heap.len() = 16, hp symbolic, all bytes symbolic, no call frame ($fp = 0, prev_hp = VM_MAX_RAM)',
@@ -228,47 +228,49 @@ prop('C02',
 prop('C14',
      builds=[dict(crate='ext', filters=['c14_'])],
      default=dict(mem=3, timeout={'quick': 900, 'thorough': 2400}, cbmc_extra=FS),
-     overrides=[(r'c14_generate', dict(mem=16))],
-     min_harnesses={'quick': 10, 'thorough': 10},
+     overrides=[(r'c14_generate', dict(mem=24, tier='thorough'))],
+     min_harnesses={'quick': 10, 'thorough': 11},
      functions_encoded=['fuel_merkle::sparse::proof::{InclusionProof::verify, ExclusionProof::verify, ExclusionLeaf::hash}', 'fuel_merkle::common::path::Path::get_instruction',
                         'fuel_merkle::common::msb::Msb::get_bit_at_index_from_msb'],
      bounds=['proof lengths 0..5 (harness constants); root, all 256 key bits, value / exclusion leaf and every proof entry symbolic with no relation assumed'],
      assumptions=[TOY_NOTE + ' (sparse wrappers calculate_leaf_hash / calculate_node_hash / common::sum; sum is the identity on 32-byte inputs)'],
-     out_of_claim=['proof generation (generate_proof needs a built tree; sparse construction is a C12/C13 matter)', 'proof lengths above 5, the > 256 guard'],
+     out_of_claim=['proof generation: generate_proof on a SINGLE-leaf tree (c14_generate_single_leaf, thorough-tier attempt) gives no verdict in 900 s / 3 GB even with field sensitivity 512 - sparse construction stays out of reach (C12/C13 not applicable)', 'proof lengths above 5, the > 256 guard'],
      level_text='Both sparse proof verifiers decided equal to the compact-tree recomputation for all symbolic (root, key, value/leaf, proof entries) at proof lengths 0..5, including the rule that an exclusion leaf claiming the queried key is rejected.',
      level_note='Trusted: Kani/CBMC/cadical; TOY hash parametricity.')
 
 prop('C01',
      builds=[dict(crate='ext', filters=['c01_'])],
-     default=dict(mem=12, timeout={'quick': 900, 'thorough': 2400}, unwindset=['memcmp.0:40']),
-     min_harnesses={'quick': 10, 'thorough': 10},
-     functions_encoded=['<T as fuel_types::canonical::Serialize>::{to_bytes, size, size_static, size_dynamic, encode_static, encode_dynamic} and <T as Deserialize>::{decode, decode_static, decode_dynamic} (fuel-derive generated) for UtxoId, TxPointer, StorageSlot, Witness, all 5 Output variants, all 7 Input variants',
+     default=dict(mem=6, timeout={'quick': 900, 'thorough': 3000}, unwindset=['memcmp.0:40']),
+     overrides=[(r'c01_input_message_data_predicate_l1_l8_l7', dict(tier='thorough', mem=16)), (r'c01_policies', dict(mem=16))],
+     min_harnesses={'quick': 20, 'thorough': 22},
+     functions_encoded=['<T as fuel_types::canonical::Serialize>::{to_bytes, size, size_static, size_dynamic, encode_static, encode_dynamic} and <T as Deserialize>::{decode, decode_static, decode_dynamic} (fuel-derive generated) for UtxoId, TxPointer, StorageSlot, Witness, Policies (all 64 masks), all 5 Output variants, all 7 Input variants',
                         'fuel_types::canonical impls for integers, [u8;N], Vec<u8>, Bytes; alignment_bytes / aligned_size'],
      bounds=['one harness per type/variant; every scalar and fixed array field symbolic; byte-vector lengths are harness constants drawn from {0,1,7,8,9} (the codec depends on len mod 8 and len == 0 only)'],
      assumptions=['Result::{expect,unwrap} replaced by non-formatting models (K2)', 'Input variants are distinguished on the wire by emptiness of predicate/data: predicate variants are built with a non-empty predicate (documented)'],
-     out_of_claim=['whole transactions, receipts, policies, upgrade purposes (transaction layer not yet built)', 'longer vectors (codec is length-uniform beyond one padding period: argument)'],
+     out_of_claim=['whole transactions, receipts, upgrade purposes (transaction layer not built)', 'longer vectors (codec is length-uniform beyond one padding period: argument)'],
      level_text='Bounded model checking of the real encoders/decoders per element type with symbolic field contents: size identities, alignment, exact consumption and equality after the round trip.',
      level_note='Trusted: Kani/CBMC/cadical.')
 
 prop('C18',
      builds=[dict(crate='ext', filters=['c18_'])],
-     default=dict(mem=12, timeout={'quick': 900, 'thorough': 2400}, cbmc_extra=FS),
-     min_harnesses={'quick': 6, 'thorough': 8},
-     functions_encoded=['fuel_tx::Chargeable::{min_gas, max_gas, min_fee, max_fee, refund_fee} (default methods) on a real Script', 'fuel_tx::transaction::fee::{gas_to_fee, min_gas}',
+     default=dict(mem=3, timeout={'quick': 900, 'thorough': 3000}, cbmc_extra=FS),
+     min_harnesses={'quick': 10, 'thorough': 14},
+     functions_encoded=['Upload/Blob/Create::{min_gas, metered_bytes_size, gas_used_by_metadata} (ordering only)', 'fuel_tx::Chargeable::{min_gas, max_gas, min_fee, max_fee, refund_fee} (default methods) on a real Script', 'fuel_tx::transaction::fee::{gas_to_fee, min_gas}',
                         'TransactionFee::checked_from_tx', 'Script::{metered_bytes_size, gas_used_by_metadata}', 'DependentCost::resolve'],
-     bounds=['a Script without inputs, outputs, witnesses; tip / witness limit / max fee / gas price / used gas / gas_per_byte: all u64 values',
-             'gas price factor: the concrete values {1, 2, 10^9 (default), 2^40+12345} (a symbolic 64-bit divisor does not finish in CBMC); default gas cost table'],
+     bounds=['a Script without inputs, outputs, witnesses; tip / witness limit / max fee / gas price / used gas: all u64 values; gas_per_byte = default (4)',
+             'gas price factor: the concrete values {1, 10^9 (default), 2^40+12345} (a symbolic 64-bit divisor does not finish in CBMC); default gas cost table'],
      assumptions=['Result::{expect,unwrap} replaced by non-formatting models (K2)', 'price factor >= 1 (property precondition)'],
-     out_of_claim=['transactions with signed inputs (witness de-duplication uses a HashSet, K5)', 'Create/Upload/Upgrade/Blob metadata gas', 'symbolic price factor'],
+     out_of_claim=['transactions with signed inputs (witness de-duplication uses a HashSet, K5)', 'exact formulas for Create/Upload/Upgrade/Blob (only min<=max ordering with one 16-byte witness is decided for Upload/Blob/Create)', 'symbolic price factor'],
      level_text='Bounded model checking of the real fee functions against the ceiling-division formulas in multiplicative witness form, at full 64-bit width for four concrete price factors; ordering, monotonicity, bound by the fee limit and absence of panics.',
      level_note='Trusted: Kani/CBMC/cadical.')
 
 prop('C36',
      builds=[dict(crate='vm', filters=['c36_'])],
-     default=dict(mem=12, timeout={'quick': 900, 'thorough': 2400}),
-     min_harnesses={'quick': 8, 'thorough': 8},
+     default=dict(mem=6, timeout={'quick': 900, 'thorough': 2400}, unwindset=['memcmp.0:66']),
+     overrides=[(r'c36_state_', dict(mem=14))],
+     min_harnesses={'quick': 12, 'thorough': 15},
      functions_encoded=['<MemoryStorage as StorageRead<T>>::{read_exact, read_zerofill, read_alloc}, <MemoryStorage as StorageSize<T>>::size_of_value, <MemoryStorage as StorageWrite<T>>::write_bytes for T in {ContractsRawCode, ContractsState, BlobData}'],
-     bounds=['one stored value of n symbolic bytes (n in {0,1,4,5,8}, harness constant) under a concrete key, a second concrete key absent; buffer of m bytes (m in {0,1,2,3,4,8}) pre-filled with symbolic garbage; offset: any usize'],
+     bounds=['one stored value of n symbolic bytes ((n, m) in {(5,3),(0,2),(4,0)} for code, (5,3) for state, (8,1) for blobs; harness constants) under a concrete key, a second concrete key absent; buffer of m bytes (m in {0,1,2,3,4,8}) pre-filled with symbolic garbage; offset: any usize'],
      assumptions=['Result::{expect,unwrap} replaced by non-formatting models (K2)'],
      out_of_claim=['the code/blob loading instructions built on these reads (LDC, CCP, BLDD, CSIZ, BSIZ handlers: not yet built)', 'other storage back ends'],
      level_text='Bounded model checking of the MemoryStorage read functions against the read contract for an unrestricted offset (exact: succeeds iff offset+len within the value; zerofill: fails only beyond the value, zero-fills the rest; missing key; nothing outside the buffer semantics changes).',
@@ -293,7 +295,7 @@ prop('C29',
      default=dict(mem=4, timeout={'quick': 900, 'thorough': 2400}),
      min_harnesses={'quick': 10, 'thorough': 10},
      bug_new_is_violation=True,
-     functions_encoded=['GasCosts::default() table', 'InterpreterError::{from_runtime, instruction_result, panic_reason}', 'Interpreter::instruction_inner (undefined opcodes)',
+     functions_encoded=['GasCosts::default() table', 'InterpreterError::{from_runtime, instruction_result, panic_reason}',
                         'a sample of the handler harnesses of C21, C22, C24, C25, C26, C34 (real handlers; Kani default checks = no host panic; exact outcome assertions = never RuntimeError::Bug; a reachable Bug::new is reported by Kani as an unsupported construct and mapped to a violation candidate)'],
      bounds=['per-step obligations from arbitrary VMINV states, bounds as in the sampled properties', 'default gas schedule: every fixed cost >= 1 and every dependent cost resolves to >= 1 for all unit counts'],
      assumptions=[VM_STUBS_NOTE],
@@ -301,6 +303,42 @@ prop('C29',
                    'handlers without a step harness (listed as uncovered in C22/C24/C27/C30/C33)'],
      level_text='Step-level bounded model checking: no host panic and no internal-bug result in one step of the covered handlers from any VMINV state, total error classification, undefined opcodes refused, and strict gas decrease under the default schedule (termination argument).',
      level_note='Trusted: Kani/CBMC/cadical, split_registers model; induction over steps is an argument, not a solver query.')
+
+prop('C28',
+     builds=[dict(crate='ext', filters=['c28_'])],
+     default=dict(mem=8, timeout={'quick': 900, 'thorough': 2400}, cbmc_extra=FS),
+     min_harnesses={'quick': 5, 'thorough': 5},
+     functions_encoded=['fuel_vm::interpreter::ReceiptsCtx::{push, root, len}', '<Receipt as Serialize>::to_bytes', 'MerkleRootCalculator::{push, root}'],
+     bounds=['receipt lists of length 0..4 with kinds drawn from {Return, Revert, Log, Transfer, ScriptResult} (harness constants), all fields symbolic'],
+     assumptions=[TOY_NOTE],
+     out_of_claim=['run_program: exactly one script-result receipt, panic receipt iff panic, success iff top-level return (not built)',
+                   'the 65,535 receipt limit (needs 65,533 materialised receipts)', 'revert/panic post-conditions on outputs and MemoryClient storage rollback (not built)',
+                   'receipts with data payloads (ReturnData, LogData, MessageOut)'],
+     level_text='Bounded model checking of the receipts-root clause only: after pushing 0..4 receipts with symbolic fields the committed root equals the RFC 6962 tree hash of their canonical encodings and the list grew by exactly the pushed receipts. The other clauses of C28 are stated as outside the claim.',
+     level_note='Trusted: Kani/CBMC/cadical; TOY hash parametricity. Partial claim.')
+
+prop('C15',
+     builds=[dict(crate='ext', filters=['c15_'])],
+     default=dict(mem=8, timeout={'quick': 900, 'thorough': 2400}, cbmc_extra=FS),
+     min_harnesses={'quick': 7, 'thorough': 7},
+     functions_encoded=['fuel_tx::Contract::root_from_code', 'fuel_merkle::binary::in_memory::MerkleTree::{new, push, root}'],
+     bounds=['code of 0, 1, 7, 8, 9, 12, 16 symbolic bytes (one chunk; the padding rule depends on len mod 8)'],
+     assumptions=[TOY_NOTE + '; the TOY leaf hash samples the length and 4 bytes, so the padded length and the sampled bytes are what is compared'],
+     out_of_claim=['code of two or more 16 KiB chunks', 'initial state root (sparse tree construction, not decidable here)', 'contract id and predicate owner formulas (fuel_crypto::Hasher streaming SHA-256 state cannot be abstracted at a wrapper)', 'the VM deployment / CROO / predicate-owner uses'],
+     level_text='Bounded model checking of the code-root clause for single-chunk code at every padding class. The other clauses of C15 are outside the claim (partial).',
+     level_note='Trusted: Kani/CBMC/cadical; TOY hash parametricity. Partial claim.')
+
+prop('C33',
+     builds=[dict(crate='vm', filters=['c33_'])],
+     default=dict(mem=10, timeout={'quick': 1200, 'thorough': 2400}, unwindset=['memcmp.0:66']),
+     min_harnesses={'quick': 2, 'thorough': 2},
+     functions_encoded=['Interpreter::{storage_read_slot, storage_write_slot, storage_slot_len_no_gas}', 'MemoryStorage ContractsState read_alloc / contract_state_insert', 'dependent_gas_charge / gas_charge'],
+     bounds=['one slot of the current contract (concrete contract id and key), present with 4 symbolic bytes or absent; cache empty or coherent-and-warm (symbolic); written value of 3 symbolic bytes; slot length limit 2 or 1024; symbolic gas schedule and registers'],
+     assumptions=[VM_STUBS_NOTE, 'cache coherence invariant assumed on the pre-state and re-asserted on the post-state'],
+     out_of_claim=['the instruction handlers built on the kernel (SRW SRWQ SWW SWWQ SCWQ SCLR SRDD SRDI SWRD SWRI SUPD SUPI SPLD): key fetch from memory, zero-fill/flag registers, range clears, key_range wrap: not built',
+                   'sequences of instructions (induction over the coherent-cache invariant)'],
+     level_text='One-step bounded model checking of the storage slot kernel: reads return the key-value map content whether the in-transaction cache is warm or cold (only the gas entry differs), writes are reflected exactly in persistent storage and cache, oversized writes are refused without a change. Partial claim (kernel only).',
+     level_note='Trusted: Kani/CBMC/cadical, split_registers model. Partial claim.')
 
 # ---------------------------------------------------------------------------------------
 def opts_for(pid, h, tier):
